@@ -732,6 +732,8 @@ def prepare_spec(scenario):
     # knobs applied to configurations the CLI emitted (operator options only, the model is untouched)
     ko = recipe.get("op_knobs") or {}
     for op in m.get("operators", []):
+        if not isinstance(op, dict):
+            continue
         t = str(op.get("type", ""))
         if ko.get("disable_adaptation"):
             op["disable_adaptation"] = True
@@ -916,7 +918,7 @@ def generate(seed, index, tier):
                   "window": k.choice([None, 3, 10]), "disable_adaptation": k.bernoulli(0.12), "tune_scale": k.loguniform(0.03, 30.0) if k.bernoulli(0.6) else None,
                   "target_acc": k.choice([None, None, 0.1, 0.5, 0.9]), "mass_freq": k.choice([2, 4]), "mass_swap": k.choice([0, 0, 5]), "use_acceptance_rate": k.bernoulli(0.2),
                   "leap_steps": k.randint(1, 5), "dim": k.choice([1, 2, 3, 5]), "transformed_op": k.bernoulli(0.1),
-                  "adapt_start": k.choice([None, None, 5, 20]), "adapt_end": k.choice([None, None, None, 40]), "view_op": k.bernoulli(0.12)}
+                  "adapt_start": k.choice([None, None, 5, 20]), "adapt_end": k.choice([None, None, None, 40]), "view_op": k.bernoulli(0.12), "dup_op": k.bernoulli(0.1)}
         if k.bernoulli(0.25):
             recipe["faulty"] = {"watch": k.choice(["x", "z"]), "index": 0, "lo": k.uniform(-2.0, -0.2), "hi": k.uniform(0.8, 3.0), "value": k.choice(["-inf", "-inf", "nan", "+inf"])}
         transitions = k.randint(20, 120)
